@@ -326,7 +326,9 @@ class ExprParser(RecursiveDescent):
         return shape
 
 def check_expr(expr, trace=False):
-    a = ExprParser(expr, trace=trace).expression()
+    parser = ExprParser(expr, trace=trace)
+    a = parser.expression()
+    parser.mustbe("EOF")
     return a
 
 def check_dimension(dim, attrs, trace=False):
@@ -345,7 +347,9 @@ def check_dimension(dim, attrs, trace=False):
         attrs["dimension"] = AssumedRank()
         attrs["assumed-rank"] = True
     else:
-        attrs["dimension"] = ExprParser(dim, trace=trace).dimension_shape()
+        parser = ExprParser(dim, trace=trace)
+        attrs["dimension"] = parser.dimension_shape()
+        parser.mustbe("EOF")
 
 ######################################################################
 
